@@ -7,5 +7,5 @@ MCShapes == RefreshShapes
 MCScript == IF MCLong THEN <<"SetObj", "NewEmpty", "CopyTo", "SetObj", "CopyTo", "CopyTo", "SetPrior", "CopyTo", "CopyTo">> ELSE <<"SetObj", "NewEmpty", "CopyTo", "SetObj", "CopyTo", "CopyTo">>
 MCProps == {"C09"}
 ASSUME PrintT("SHAPES " \o ToJson(MCShapes))
-INSTANCE Session WITH Shapes <- MCShapes, Script <- MCScript, Deep <- MCDeep, Props <- MCProps, ObjMode <- "all", RawMode <- "plans"
+INSTANCE Session WITH Shapes <- MCShapes, Script <- MCScript, Deep <- MCDeep, Props <- MCProps, ObjMode <- "all", RawMode <- "plans", EmptyMode <- "plain"
 ====
